@@ -156,6 +156,17 @@ func (ex *Exec) heapAllocatedBefore(arr Term, n int) {
 	case arraySort(SRef, SSlice):
 		inner = fmt.Sprintf("(sbase (select %s r))", arr.S)
 	default:
+		// map value arrays (Array Ref (Array K Ref)): the values of a map that comes from
+		// outside are not addresses allocated later either
+		so := string(arr.Sort)
+		const pre, suf = "(Array Ref (Array ", " Ref))"
+		if strings.HasPrefix(so, pre) && strings.HasSuffix(so, suf) {
+			ks := so[len(pre) : len(so)-len(suf)]
+			if !strings.ContainsAny(ks, "() ") {
+				inner = fmt.Sprintf("(select (select %s r) k)", arr.S)
+				ex.vc.assume(tTrue, T(fmt.Sprintf("(forall ((r Ref) (k %s)) (! (=> ((_ is loc) (root %s)) (<= (locid (root %s)) %d)) :pattern (%s)))", ks, inner, inner, n, inner), SBool), "a map from outside holds no address allocated later")
+			}
+		}
 		return
 	}
 	ex.vc.assume(tTrue, T(fmt.Sprintf("(forall ((r Ref)) (! (=> ((_ is loc) (root %s)) (<= (locid (root %s)) %d)) :pattern ((select %s r))))", inner, inner, n, arr.S), SBool), "a heap from outside holds no address allocated later")
